@@ -86,3 +86,8 @@ func init() {
 	reg("sort.Slice", sortSlice)
 	reg("sort.SliceStable", sortSlice)
 }
+
+func init() {
+	// the server's local zone is modelled as UTC: the zero Location behaves as UTC
+	reg("time.initLocal", noop)
+}
